@@ -652,8 +652,8 @@ fn main() {
     check_.rule("histories of <=8 management operations over 2 tenant slots and <=3 deployed pipelines (create/delete tenant with every quota tier, deploy/delete/reload pipeline incl. refused ones: unknown key, unknown pipeline, unparsable source, quota exceeded; a direct status change + persist; clean restarts), sent through the real warp handlers (api_routes) to a TenantManager on a CrashStore around the real FileStore (temp dir) or MemoryStore; a dry run counts the store writes, then the history is re-run once per write index k (that put/delete and everything after it fails) and once with no failure; a new server start (FileStore::open + shared_tenant_manager_with_store = TenantManager::recover) on the inner store must hold exactly the tenants, api keys, quotas and pipelines (id, name, source, status) of the 2xx-acknowledged operations, the single in-flight operation either applied or not; the recovered server's pipeline listing must agree, deleted tenants' keys must not authenticate. Non-trivial = history with a crash between the tenant snapshot write and the index write, or inside a delete.");
     check_.assume("crash = the k-th store write and all later calls fail (no torn store writes: FileStore::put is atomic, see C21); the response of the in-flight operation is only used to learn the ids it generated; statuses other than running only arise through the direct field write of the SetStatus step because no HTTP operation changes a status");
     let stats = Stats::default();
-    check_.explore("file", hist_strategy, 500, 10_000, |h: &Hist| check(h, true, &stats));
-    check_.explore("memory", hist_strategy, 500, 10_000, |h: &Hist| check(h, false, &stats));
+    check_.explore("file", hist_strategy, 300, 6000, |h: &Hist| check(h, true, &stats));
+    check_.explore("memory", hist_strategy, 300, 6000, |h: &Hist| check(h, false, &stats));
     check_.extra("crash_runs_total", json!(stats.crash_runs.load(Ordering::Relaxed)));
     check_.extra("crash_runs_by_class", json!(*stats.by_class.lock().unwrap()));
     println!("  crash runs: {} {:?}", stats.crash_runs.load(Ordering::Relaxed), stats.by_class.lock().unwrap());
